@@ -11,6 +11,8 @@ structure InvR (s : State) : Prop where
   /-- what the fulfiller's `GetRef()` returned -/
   f_refd : ∀ c rest d n, s.fpc = .walk (c :: rest) d (.refd n) →
     2 ≤ n ∧ (c.kind = .retire → 3 ≤ n) ∧ (n = 2 → s.count = 2)
+  /-- `if (ref == 1) caller.DecRef()` of ResultCore::Impl is never taken when the caller is a shared core -/
+  f_post : ∀ l d, s.fpc ≠ .walk l d .post
   /-- what an observer's `GetRef()` returned (Retire on the inline path / Get()&&) -/
   o_refd : ∀ t c n, (s.obs t).pc = .run c (.refd n) → 1 ≤ n ∧ (n = 1 → s.count = 1)
   o_got : ∀ t n, (s.obs t).pc = .gotRef n → 1 ≤ n ∧ (n = 1 → s.count = 1)
@@ -29,7 +31,7 @@ grind_pattern nil_or_length_pos => l.length
 
 macro "invR_auto" : tactic => `(tactic| (constructor <;> sh_unfold' <;>
   grind [isReadyOp, opKind, = retCnt_cons, = retCnt_nil, = promRefs_start, = promRefs_walk, = promRefs_dec,
-    = List.length_append, = List.length_erase_of_mem,
+    = List.length_erase_of_mem,
     = wordList_list, = wordList_result, = walkList_walk, = walkList_start, = walkList_dec]))
 
 end Yaclib.Shared
